@@ -122,6 +122,39 @@ def extra_obligations(reg):
     out.append(dict(name='LASRead.py:generate_lines/RE_COMMENT-rejects-every-other-line', pc=[z3.InRe(s, conf_data)], goal=z3.Not(z3.InRe(s, regex.match_lang(lit))),
                     note='a line whose first non-blank character is not # does not match %r' % lit, func='generate_lines'))
     out.append(dict(name='LASRead.py:generate_lines/RE_COMMENT-canary', pc=[], goal=z3.InRe(s, regex.match_lang(lit)), note='must fail', func='generate_lines', expect_fail=True))
+    # --- the test generate_lines itself applies (read from the source: the `if` that guards its first `yield`), evaluated by the
+    # engine on a symbolic line: every conformant comment line is skipped, every content line is passed on
+    import ast
+    from pyvc import source
+    from pyvc.engine import Engine, State, Frame
+    mod = source.load(LR)
+    gl = mod.functions['generate_lines']
+    guard = None
+    for node in ast.walk(gl):
+        if isinstance(node, ast.If) and any(isinstance(x, (ast.Yield, ast.YieldFrom)) for b in node.body for x in ast.walk(b)):
+            guard = node.test
+            break
+    if guard is None:
+        from pyvc.kinds import ContractError
+        raise ContractError('generate_lines: no `if` guarding a yield found')
+    eng = Engine(reg, 'C09')
+    st0 = State()
+    st0.env['line'] = s
+    eng.frames.append(Frame(mod, 'generate_lines', None))
+    eng.sinks.append([])
+    eng.pure += 1
+    try:
+        gv = eng.ev(guard, st0)[0][1]
+        passed = to_bool_term(eng.truth(gv))
+    finally:
+        eng.pure -= 1
+        eng.sinks.pop()
+        eng.frames.pop()
+    out.append(dict(name='LASRead.py:generate_lines/skips-every-comment-line', pc=[z3.InRe(s, conf_comment)] + list(st0.pc), goal=z3.Not(passed),
+                    note='a line of blanks, #, text is not passed on by `if %s`' % ast.unparse(guard), func='generate_lines'))
+    out.append(dict(name='LASRead.py:generate_lines/passes-every-content-line', pc=[z3.InRe(s, conf_data)] + list(st0.pc), goal=passed,
+                    note='a line whose first non-blank character is visible and not # is passed on by `if %s`' % ast.unparse(guard), func='generate_lines'))
+    out.append(dict(name='LASRead.py:generate_lines/guard-canary', pc=list(st0.pc), goal=passed, note='must fail', func='generate_lines', expect_fail=True))
     # --- section heads: '~' + one of VWCPOA + any title
     lit = _compiled_literal('RE_SECT_HEAD')
     conf_head = z3.Concat(R('~'), U(*[R(c) for c in 'VWCPOA']), z3.Star(notnl), z3.Option(R('\n')))
